@@ -33,7 +33,7 @@ pub struct MixSpec {
     pub ops_seed: u64,
     pub ops_per_thread: usize,
     pub thorough: bool,
-    /// engine B only: leave out the ops whose set-up builds bootstrapping keys (minutes under Miri)
+    /// engine B only: leave out the ops whose set-up builds BDD or circuit-bootstrapping keys (minutes under Miri); blind rotation stays in (about a minute per pair)
     pub light: bool,
     /// every op of the run comes from one family (same first two name tokens, e.g. the constant and the
     /// exponent circuit bootstrap) and gets the same shape: state an op leaves behind on its OS thread
@@ -66,7 +66,7 @@ impl MixSpec {
             .copied()
             .filter(|o| {
                 let heavy = o.starts_with("word_") || o.starts_with("circuit_bootstrapping");
-                !(self.light && (heavy || o.contains("bdd") || o.contains("blind_rotation") || o.contains("fhe_uint")))
+                !(self.light && (heavy || o.contains("bdd") || o.contains("fhe_uint")))
             })
             .collect()
     }
